@@ -40,13 +40,37 @@ package nsqd
 //@   onreturn lTPauseObs := result
 //@   onreturn r3aPauseChecks := r3aPauseChecks + 1
 
-// The latency aggregate walks the channels' quantile streams only (internal/quantile is outside this
-// area): assumed not to touch any counter or queue of the topic or its channels.
+// (round 5, area J) VERIFIED (was a trusted stub). The latency aggregate: the channels of the topic are listed under the topic's read lock; every listed channel
+// that has an e2e latency stream is merged (quantile.Quantile.Merge) into ONE new aggregate built with the configured window and percentiles; nil iff no
+// listed channel has a stream. quantile.New / Merge: assumed contracts scoped to nsqd (lib/trusted/r5J.spec; New was `benign` before), recorded in r5JQ* ghosts.
+// Touches no counter or queue of the topic or its channels (checked frame: the lock-protected map only, as before).
 //@ func (t *Topic) AggregateChannelE2eProcessingLatency() *quantile.Quantile
 //@   props C13
-//@   trusted
-//@   requires t != nil
+//@   nochan
+//@   requires t != nil && t.nsqd != nil
+//@   ensures[nil-iff-nothing-merged] (result == nil) <==> (r5JQMerges == old(r5JQMerges))
+//@   ensures[one-new-aggregate-as-configured] result != nil ==> fresh(result) && r5JQNews == old(r5JQNews) + 1 && r5JQNewResult == result &&
+//@        r5JQNewWindow == curOpts(t.nsqd).E2EProcessingLatencyWindowTime && r5JQNewPercentiles == curOpts(t.nsqd).E2EProcessingLatencyPercentiles
+//@   ensures[no-aggregate-without-stream] result == nil ==> r5JQNews == old(r5JQNews)
+//@   ensures[all-merged-into-the-result] r5JQMerges > old(r5JQMerges) ==> r5JQMergeInto == result
+//   every free ghost other than the r5JQ* records is left alone (as under the former trusted stub)
+//@   keeps gMarshalArg, gMarshalErr, gMarshalOut, gMarshals, gQuiesced, pumpKicked, pumpKicks, r4ABytesBuf, r4ABytesData, r4AGotAt, r4AGotBuf, r4APoolGets, r4APoolPuts, r4APutBuf, r4BExitTestChan, r4BExitTestHeld, r4BExitTestSaw, r4BExitTests, r4CLoaded, r5JBufResetBuf, r5JBufResets, r5JPoolGetOn, r5JPoolGets, r5JPoolPutOn, r5JPoolPutSawResets, r5JPoolPutVal, r5JPoolPuts, r5JWgAddOn, r5JWgAddSum, r5JWgAdds, r5JWgDoneOn, r5JWgDones, r5JWgLastOpDone, r5JWrapAddsAtSpawn, r5JWrapSpawns, r5JLogOutputs, r5JLogOutputOn, r5JLogOutputDepth
 //@   modifies t.channelMap, mapstore(map[string]*Channel)
+//@   loop 0
+//@     invariant[list] len(realChannels) >= 0 && t.channelMap == atlock(t.channelMap)
+//@     invariant[list-own] fresh(base(realChannels))
+//@     invariant[listed-are-real] forall i int :: {realChannels[i]} 0 <= i && i < len(realChannels) ==> realChannels[i] != nil
+//@     invariant[nothing-yet] latencyStream == nil && r5JQNews == old(r5JQNews) && r5JQMerges == old(r5JQMerges)
+//@   loop 1
+//@     invariant[listed-are-real] forall i int :: {realChannels[i]} 0 <= i && i < len(realChannels) ==> realChannels[i] != nil
+//@     invariant[aggregate-nil] r5JQMerges >= old(r5JQMerges) && (latencyStream == nil <==> r5JQMerges == old(r5JQMerges)) && (latencyStream == nil ==> r5JQNews == old(r5JQNews))
+//@     invariant[aggregate-new] latencyStream != nil ==> fresh(latencyStream) && r5JQNews == old(r5JQNews) + 1 && r5JQNewResult == latencyStream && r5JQMergeInto == latencyStream
+//@     invariant[aggregate-window] latencyStream != nil ==> r5JQNewWindow == curOpts(t.nsqd).E2EProcessingLatencyWindowTime
+//@     invariant[aggregate-percentiles] latencyStream != nil ==> r5JQNewPercentiles == curOpts(t.nsqd).E2EProcessingLatencyPercentiles
+//@     invariant[topic-kept] t.nsqd == old(t.nsqd)
+//@     invariant[every-listed-stream-merged] forall i int :: {realChannels[i]} 0 <= i && i <= rangeindex && i < len(realChannels) && realChannels[i].e2eProcessingLatencyStream != nil ==> setin(r5JQMergedSet, realChannels[i].e2eProcessingLatencyStream)
+//   the loop is never left before the last listed channel (an early `break` would drop the remaining channels' percentiles: C13/C18 "merged, not dropped")
+//@     exit[every-listed-channel-visited] rangeindex + 1 >= len(realChannels)
 
 // Each field of the result is the counter it is named after. In-flight and deferred counts are the
 // sizes of the maps, read inside the critical sections of their mutexes.
@@ -69,6 +93,8 @@ package nsqd
 //@ func NewTopicStats(t *Topic, channels []ChannelStats) TopicStats
 //@   props C13
 //@   requires t != nil && t.backend != nil
+//   (round 5, area J) precondition of the now VERIFIED AggregateChannelE2eProcessingLatency (it reads the latency options through t.nsqd)
+//@   requires[daemon] t.nsqd != nil
 //@   ensures[name] result.TopicName == t.name
 //@   ensures[channels] result.Channels == channels
 //@   ensures[depth] result.Depth == lastTopicDepth && result.BackendDepth == lastBackendDepth && lastBackendDepthQueue == t.backend
